@@ -196,23 +196,26 @@ impl<T: Write + Seek> ShapeWriter<T> {
             return Ok(());
         }
 
-        if self.header.bbox.max.m == f64::MIN && self.header.bbox.min.m == f64::MAX {
-            self.header.bbox.max.m = 0.0;
-            self.header.bbox.min.m = 0.0;
+        // The sentinels of untouched ranges are replaced in the header that is
+        // written, not in the one that keeps growing with later writes.
+        let mut final_header = self.header;
+        if final_header.bbox.max.m == f64::MIN && final_header.bbox.min.m == f64::MAX {
+            final_header.bbox.max.m = 0.0;
+            final_header.bbox.min.m = 0.0;
         }
 
-        if self.header.bbox.max.z == f64::MIN && self.header.bbox.min.z == f64::MAX {
-            self.header.bbox.max.z = 0.0;
-            self.header.bbox.min.z = 0.0;
+        if final_header.bbox.max.z == f64::MIN && final_header.bbox.min.z == f64::MAX {
+            final_header.bbox.max.z = 0.0;
+            final_header.bbox.min.z = 0.0;
         }
 
         self.shp_dest.seek(SeekFrom::Start(0))?;
-        self.header.write_to(&mut self.shp_dest)?;
+        final_header.write_to(&mut self.shp_dest)?;
         self.shp_dest.seek(SeekFrom::End(0))?;
         self.shp_dest.flush()?;
 
         if let Some(shx_dest) = &mut self.shx_dest {
-            let mut shx_header = self.header;
+            let mut shx_header = final_header;
             shx_header.file_length = header::HEADER_SIZE / 2
                 + ((self.rec_num - 1) as i32 * 2 * size_of::<i32>() as i32 / 2);
             shx_dest.seek(SeekFrom::Start(0))?;
